@@ -230,6 +230,12 @@ class SiteScan:
             d, r, fn = callee(t)
             targs = " ".join(fn.get("targs", []))
             if "Range" in targs:
+                # v[lo..lo + n] with lo + n <= len(v) established on this path (n is a length, hence lo <= lo + n)
+                if i[0] == "agg" and i[2] == "Range" and len(i[4]) == 2:
+                    lo, hi = i[4]
+                    if hi[0] == "add" and lo in hi[1:] and any(x[0] == "len" for x in hi[1:] if x != lo):
+                        if any(g.get(("lt", l2, hi)) is False for l2 in _len_aliases(("len", v))):
+                            return True, ""
                 return False, "range index %s" % show(i)[:80]
             if any(g.get(("lt", i, l2)) is True for l2 in _len_aliases(("len", v))):
                 return True, ""
